@@ -1,7 +1,8 @@
-(* C07 - property theorems (statements only; the proofs live in Acme.C01.ProofsXxx / Acme.C07.ProofsXxx). *)
+(* C07 - property theorems (statements only; the proofs live in Acme.C01.ProofsXxx / Acme.C07.Proofs). *)
 From Coq Require Import ZArith List.
 From Acme.C01 Require Import Layout State Model ProofsLayout ProofsInv Refuted ProofsT1.
-From Acme.C07 Require Import Model.
+From Acme.C07 Require Import Model Proofs.
+Import ListNotations.
 Open Scope Z_scope.
 
 (* A multiplexer's size is its group size plus the selector width for its group count. *)
@@ -10,12 +11,64 @@ Proof. intros s u c g H. unfold sz. rewrite H. reflexivity. Qed.
 Print Assumptions mux_size.
 
 (* Every group of every multiplexer is a well-formed layout within the group size, in every state
-   reached by a history satisfying the per-step hypotheses (see Properties/C01.v). *)
-Theorem groups_wf : forall ops, ok_hist ops -> forall u g,
+   reached by a history satisfying the per-step hypotheses (see Properties/C01.v, T1). *)
+Theorem groups_wf : forall ops, ok_hist_w ops -> forall u g,
   wf (mux_gsize (run ops) u) (group_view (run ops) u g).
 Proof. exact t1_groups_wf. Qed.
 Print Assumptions groups_wf.
 
+(* A signal inserted without group ids (fixed) is present in every group (at its one relative
+   position) and has no group ids. *)
+Theorem membership_fixed : forall ops, ok_hist_w ops -> forall u x, ufixed (run ops) u x = true ->
+  (forall g, (Z.of_nat g < mux_count (run ops) u) -> In x (gget (run ops) u g))
+  /\ ugids (run ops) u x = None.
+Proof. exact membership_fixed_w. Qed.
+Print Assumptions membership_fixed.
+
+(* A signal inserted with group ids is present in exactly those groups; the ids are distinct,
+   inside 0..count-1, and the signal is not fixed. *)
+Theorem membership_ids : forall ops, ok_hist_w ops -> forall u x ids, ugids (run ops) u x = Some ids ->
+  (forall g : nat, In x (gget (run ops) u g) <-> In (Z.of_nat g) ids)
+  /\ NoDup ids /\ ids <> [] /\ (forall g, In g ids -> 0 <= g < mux_count (run ops) u) /\ ufixed (run ops) u x = false.
+Proof. exact membership_ids_w. Qed.
+Print Assumptions membership_ids.
+
+(* every signal listed by a group is fixed or grouped there, and that multiplexer is its parent *)
+Theorem membership_cover : forall ops, ok_hist_w ops -> forall u g x, In x (gget (run ops) u g) ->
+  (ufixed (run ops) u x = true \/ ugids (run ops) u x <> None) /\ pmux (run ops) x = Some u.
+Proof. exact membership_cover_w. Qed.
+Print Assumptions membership_cover.
+
+(* insert_refused_iff: an insertion is accepted exactly when the name is free and
+   - without group ids: the signal is not yet in the multiplexer and the range is free in every group;
+   - with group ids: every id is inside 0..count-1, its group does not already hold the signal, the
+     start bit is the one the signal already has (if it is in the multiplexer) and the range is free. *)
+Theorem insert_refused_iff : forall s u x b gids, InvA s -> InvM s -> vmux s u = true ->
+  (is_ok (snd (step_mux_insert s u x b gids)) <-> name_free s u x /\ insert_conditions s u x b gids).
+Proof. exact mux_insert_accepted_iff. Qed.
+Print Assumptions insert_refused_iff.
+
+(* message_view_in_step: inserting, removing, shifting, resizing or clearing (any operation
+   satisfying its hypothesis) at any depth keeps every group and every message layout well-formed
+   and the membership bookkeeping exact *)
+Theorem message_view_in_step : forall s o, InvA s -> InvM s -> ok_op_w s o ->
+  InvA (fst (step s o)) /\ InvM (fst (step s o)).
+Proof. exact step_keeps_invariants. Qed.
+Print Assumptions message_view_in_step.
+
+(* abs_start_bit, partial: one unfolding of the GetStartBit recursion (the fuel-free statement
+   [abs_start_bit_full] needs the well-foundedness of the parent chain and is not proved; the
+   formula is evaluated on the implementation at every depth by vinv.CheckMultiplexer). *)
+Theorem abs_start_bit_partial : forall f s x u, pmux s x = Some u ->
+  abs_start (S f) s x = abs_start f s u + selw (mux_count s u) + rel s x.
+Proof. exact abs_start_step. Qed.
+Print Assumptions abs_start_bit_partial.
+
+Theorem abs_start_bit_top : forall f s x, pmux s x = None -> abs_start f s x = rel s x.
+Proof. exact abs_start_top. Qed.
+Print Assumptions abs_start_bit_top.
+
+(* the unconditioned statement is refuted by the faithful model (finding D35) *)
 Theorem groups_wf_full_refuted : ~ groups_wf_full.
 Proof. exact groups_wf_full_false. Qed.
 Print Assumptions groups_wf_full_refuted.
